@@ -352,6 +352,42 @@ def replay_misc(_):
             ok = False
         if not ok:
             out.append(dict(site="TensorCollection.expand_dims", stratum="expand_dims", case={"axis": axis}, expected="a new collection axis", observed="mismatch"))
+    # a python bool used as an index is a 0-d mask: numpy inserts an axis of length 1 (True) or 0 (False) in front; the other
+    # axes keep their types, the new one is a collection axis (for a bare index and inside a tuple)
+    for arr_, cov_ in ((np.arange(6).reshape(2, 3), [0]), (np.arange(24).reshape(2, 3, 4), [1]), (np.arange(3), [0])):
+        tb = Tensor(arr_, covariant=cov_)
+        for key in (True, False, np.True_, (True,), (True, 1), (slice(None), True)):
+            try:
+                want = arr_[key]
+            except Exception:  # noqa: BLE001
+                continue
+            def types_ok(v, want=want, key=key, tb=tb):
+                if not isinstance(v, Tensor) or not np.array_equal(np.asarray(v.array), want) or np.asarray(v.array).shape != want.shape:
+                    return False
+                # positions of the surviving original axes in the result
+                k = key if isinstance(key, tuple) else (key,)
+                pos, out_ax, new_axes = 0, 0, []
+                res_types = []
+                used_bool = False
+                for item in k:
+                    if isinstance(item, (bool, np.bool_)):
+                        if not used_bool:
+                            res_types.append("free")
+                            used_bool = True
+                    elif isinstance(item, slice):
+                        res_types.append("cov" if pos in tb._covariant_indices else "con" if pos in tb._contravariant_indices else "free")
+                        pos += 1
+                    else:
+                        pos += 1        # an integer removes the axis
+                for rest in range(pos, tb.rank):
+                    res_types.append("cov" if rest in tb._covariant_indices else "con" if rest in tb._contravariant_indices else "free")
+                if any(isinstance(i, (bool, np.bool_)) for i in k) and any(isinstance(i, (int, np.integer)) and not isinstance(i, (bool, np.bool_)) for i in k):
+                    return True         # a mask next to an integer: the position of the broadcast axis follows numpy's rules for mixed advanced indices (C19_Index.tla covers those)
+                cov = sorted(i for i, x in enumerate(res_types) if x == "cov")
+                con = sorted(i for i, x in enumerate(res_types) if x == "con")
+                return len(res_types) == want.ndim and sorted(v._covariant_indices) == cov and sorted(v._contravariant_indices) == con
+            chk(f"Tensor.__getitem__/python-bool-index {key!r} on types {sorted(tb._covariant_indices)}/{sorted(tb._contravariant_indices)}", "basic",
+                {"shape": list(np.shape(want))}, lambda tb=tb, key=key: tb[key], types_ok)
     t = Tensor(np.arange(8).reshape(2, 2, 2), covariant=[0, 2])
     chk("Tensor.copy", "copy", "same data and index types", lambda: t.copy(),
         lambda c: np.array_equal(c.array, t.array) and c._covariant_indices == t._covariant_indices and c._contravariant_indices == t._contravariant_indices and c is not t)
